@@ -261,43 +261,50 @@ func c09ElemOf(v ssa.Value, slice map[ssa.Value]bool) bool {
 	return true
 }
 
-// c09StoreHelpers locates the unexported helpers of oci.Store by role.
+// c09Helpers locates the unexported helpers of oci.Store by role, anywhere in
+// the in-package call tree below the exported operation (depth 3): it does not
+// matter whether a piece of the operation was extracted into a helper.
 type c09Helpers struct {
-	del, gc   *ssa.Function
-	deleteOne *ssa.Function // calls graph.Memory.Remove and Storage.Delete
-	isTagged  *ssa.Function // bool helper calling resolver.Memory.TagSet
-	gcIndex   *ssa.Function // callee of GC that replaces s.tagResolver
+	store      *types.Named
+	del, gc    *ssa.Function
+	deleteOne  *ssa.Function   // calls graph.Memory.Remove and Storage.Delete
+	cascade    []*ssa.Function // functions below Delete that call deleteOne (where the follow-up work is decided)
+	isTagged   *ssa.Function   // bool helper calling resolver.Memory.TagSet
+	gcIndex    *ssa.Function   // function below GC that replaces s.tagResolver
+	sweepHosts []*ssa.Function // functions below GC that remove files
 }
 
 func c09FindHelpers(c *Ctx, rule string) *c09Helpers {
-	h := &c09Helpers{del: c.P.Fn("content/oci", "Store.Delete"), gc: c.P.Fn("content/oci", "Store.GC")}
-	if h.del == nil || h.gc == nil {
-		c.LostAnchor(rule, "~/content/oci.Store.Delete / Store.GC")
+	h := &c09Helpers{del: c.P.Fn("content/oci", "Store.Delete"), gc: c.P.Fn("content/oci", "Store.GC"), store: c.P.Named("content/oci", "Store")}
+	if h.del == nil || h.gc == nil || h.store == nil {
+		c.LostAnchor(rule, "~/content/oci.Store / Store.Delete / Store.GC")
 		return nil
 	}
-	for _, call := range Calls(h.del, func(string) bool { return true }) {
-		g := StaticCallee(call)
-		if g == nil || fnPkgPath(g) != pkgPath("content/oci") {
-			continue
-		}
+	below := c09ReachableInPkg(h.del, 3)
+	for _, g := range below {
 		if len(CallsTo(g, c09nRemove)) > 0 && len(CallsTo(g, c09nStDelete)) > 0 {
 			h.deleteOne = g
 		}
-		if len(CallsTo(g, c09nTagSet)) > 0 && g.Signature.Results().Len() == 1 && types.Identical(g.Signature.Results().At(0).Type(), types.Typ[types.Bool]) {
+		if g != h.del && len(CallsTo(g, c09nTagSet)) > 0 && g.Signature.Results().Len() == 1 && types.Identical(g.Signature.Results().At(0).Type(), types.Typ[types.Bool]) {
 			h.isTagged = g
 		}
 	}
-	store := c.P.Named("content/oci", "Store")
-	for _, call := range Calls(h.gc, func(string) bool { return true }) {
-		g := StaticCallee(call)
-		if g == nil || store == nil || fnPkgPath(g) != pkgPath("content/oci") {
-			continue
+	if h.deleteOne != nil {
+		for _, g := range below {
+			if g != h.deleteOne && len(CallsTo(g, fnFullName(h.deleteOne))) > 0 {
+				h.cascade = append(h.cascade, g)
+			}
 		}
+	}
+	for _, g := range c09ReachableInPkg(h.gc, 3) {
 		AllInstrs(g, func(in ssa.Instruction) {
-			if s, ok := in.(*ssa.Store); ok && c09IsFieldAddrOf(s.Addr, store, "tagResolver") {
+			if s, ok := in.(*ssa.Store); ok && c09IsFieldAddrOf(s.Addr, h.store, "tagResolver") {
 				h.gcIndex = g
 			}
 		})
+		if len(Calls(g, func(n string) bool { return n == "os.Remove" || n == "os.RemoveAll" || n == "(*os.Root).Remove" })) > 0 {
+			h.sweepHosts = append(h.sweepHosts, g)
+		}
 	}
 	return h
 }
@@ -311,79 +318,102 @@ func c09R3(c *Ctx) {
 	if h == nil {
 		return
 	}
-	del := h.del
-	dn := FnName(del)
-	recv := ssa.Value(del.Params[0])
-	autoGC, _ := BoolTests(del, c09FieldLoads(del, recv, "AutoGC"))
-	if h.deleteOne == nil {
-		c.LostAnchor(R3, dn+": helper that removes one node (calls graph.Memory.Remove and Storage.Delete)")
+	dn := FnName(h.del) // keys are anchored at the exported operation, whichever helper hosts the logic
+	if h.deleteOne == nil || len(h.cascade) == 0 {
+		c.LostAnchor(R3, dn+": helper that removes one node (calls graph.Memory.Remove and Storage.Delete) and its caller")
 		return
 	}
-	delCalls := CallsTo(del, fnFullName(h.deleteOne))
-	// (a) referrers
-	refCalls := CallsTo(del, c09nReferrers)
-	if len(refCalls) == 0 {
-		c.LostAnchor(R3, dn+": call of registry.Referrers")
-	}
-	for _, rc := range refCalls {
-		head := rc.Common().Args[2]
-		ok := c09Guarded(rc.(ssa.Instruction), autoGC)
-		c.Check(R3, dn+"|referrers-only-under-AutoGC", rc.Pos(), ok, ifelse(ok, "registry.Referrers is reached only on the s.AutoGC edge", "referrers are collected (and then deleted) although AutoGC is off"))
-		isMan, _, _ := CallTests(del, c09nIsMan, func(x *ssa.Call) bool { return c09SameKey(x.Call.Args[0], head) })
-		ok = c09Guarded(rc.(ssa.Instruction), isMan)
-		c.Check(R3, dn+"|referrers-only-of-manifests", rc.Pos(), ok, ifelse(ok, "registry.Referrers(head) is reached only on the IsManifest(head) edge", "referrers are looked up for a non-manifest node"))
-		same := len(delCalls) > 0
-		for _, dc := range delCalls {
-			if !c09SameKey(dc.Common().Args[2], head) {
-				same = false
-			}
-		}
-		c.Check(R3, dn+"|referrers-of-the-deleted-node", rc.Pos(), same, ifelse(same, "the node whose referrers are enqueued is the node that is deleted", "referrers are collected for another node than the one being deleted"))
-		// the referrers are enqueued as a whole only after the call succeeded
-		if e := ErrOf(rc); e != nil {
-			ne, _, _ := NilTests(del, Aliases(e))
-			refs := ResultOf(rc, 0)
-			for _, ap := range CallsTo(del, "builtin:append") {
-				if _, whole := c09AppendedElems(ap); whole != nil && refs != nil && Aliases(refs)[whole] {
-					ok := c09Guarded(ap.(ssa.Instruction), ne)
-					c.Check(R3, dn+"|referrers-enqueued-on-success", ap.Pos(), ok, "the referrers list is enqueued only when registry.Referrers returned no error")
-				}
-			}
-		}
-	}
-	// (b) danglings
 	if h.isTagged == nil {
 		c.LostAnchor(R3, dn+": isTagged helper (bool function calling resolver.Memory.TagSet)")
 	}
-	nEnq := 0
-	for _, dc := range delCalls {
-		dang := ResultOf(dc, 0)
-		if dang == nil {
-			continue
+	autoGCEdges := func(fn *ssa.Function, _ c09Vals) []Edge {
+		t, _ := BoolTests(fn, c08StoreFieldLoads(fn, h.store, "AutoGC"))
+		return t
+	}
+	nRef, nEnq := 0, 0
+	for _, host := range c09ReachableInPkg(h.del, 3) {
+		delCalls := CallsTo(host, fnFullName(h.deleteOne))
+		// (a) referrers
+		for _, rc := range CallsTo(host, c09nReferrers) {
+			nRef++
+			at := rc.(ssa.Instruction)
+			head := rc.Common().Args[2]
+			ok := c09GuardedUp(c.P, at, nil, autoGCEdges, 2)
+			c.Check(R3, dn+"|referrers-only-under-AutoGC", rc.Pos(), ok, ifelse(ok, "registry.Referrers is reached only on the s.AutoGC edge", "referrers are collected (and then deleted) although AutoGC is off"))
+			ok = c09GuardedUp(c.P, at, c09Vals{"node": head}, func(fn *ssa.Function, v c09Vals) []Edge {
+				if v["node"] == nil {
+					return nil
+				}
+				t, _, _ := CallTests(fn, c09nIsMan, func(x *ssa.Call) bool { return c09SameKey(x.Call.Args[0], v["node"]) })
+				return t
+			}, 2)
+			c.Check(R3, dn+"|referrers-only-of-manifests", rc.Pos(), ok, ifelse(ok, "registry.Referrers(head) is reached only on the IsManifest(head) edge", "referrers are looked up for a non-manifest node"))
+			// the node whose referrers follow is the node that is deleted
+			same := false
+			headO, _ := c09Origins(c.P, head, 2, h.del)
+			for _, ch := range h.cascade {
+				for _, dc := range CallsTo(ch, fnFullName(h.deleteOne)) {
+					same = true
+					dO, _ := c09Origins(c.P, dc.Common().Args[2], 2, h.del)
+					for _, a := range headO {
+						hit := false
+						for _, b := range dO {
+							if c09SameKey(a, b) {
+								hit = true
+							}
+						}
+						if !hit {
+							same = false
+						}
+					}
+				}
+			}
+			c.Check(R3, dn+"|referrers-of-the-deleted-node", rc.Pos(), same, ifelse(same, "the node whose referrers are enqueued is the node that is deleted", "referrers are collected for another node than the one being deleted"))
+			// the referrers are enqueued as a whole only after the call succeeded
+			if e := ErrOf(rc); e != nil {
+				ne, _, _ := NilTests(host, Aliases(e))
+				refs := ResultOf(rc, 0)
+				for _, ap := range CallsTo(host, "builtin:append") {
+					if _, whole := c09AppendedElems(ap); whole != nil && refs != nil && Aliases(refs)[whole] {
+						ok := c09Guarded(ap.(ssa.Instruction), ne)
+						c.Check(R3, dn+"|referrers-enqueued-on-success", ap.Pos(), ok, "the referrers list is enqueued only when registry.Referrers returned no error")
+					}
+				}
+			}
 		}
-		dAliases := Aliases(dang)
-		for _, ap := range CallsTo(del, "builtin:append") {
-			elems, whole := c09AppendedElems(ap)
-			if whole != nil && dAliases[whole] {
-				c.Violation(R3, dn+"|dangling-enqueued-unfiltered", ap.Pos(), "the dangling nodes returned by the delete are enqueued as a whole, without the !isTagged filter: tagged manifests would be deleted")
-				nEnq++
+		// (b) danglings
+		for _, dc := range delCalls {
+			dang := ResultOf(dc, 0)
+			if dang == nil {
 				continue
 			}
-			for _, e := range elems {
-				if !c09ElemOf(e, dAliases) {
+			dAliases := Aliases(dang)
+			for _, ap := range CallsTo(host, "builtin:append") {
+				elems, whole := c09AppendedElems(ap)
+				if whole != nil && dAliases[whole] {
+					c.Violation(R3, dn+"|dangling-enqueued-unfiltered", ap.Pos(), "the dangling nodes returned by the delete are enqueued as a whole, without the !isTagged filter: tagged manifests would be deleted")
+					nEnq++
 					continue
 				}
-				nEnq++
-				ok := c09Guarded(ap.(ssa.Instruction), autoGC)
-				c.Check(R3, dn+"|dangling-only-under-AutoGC", ap.Pos(), ok, ifelse(ok, "a dangling node is enqueued only on the s.AutoGC edge", "dangling nodes are deleted although AutoGC is off"))
-				var notTagged []Edge
-				if h.isTagged != nil {
-					_, notTagged, _ = CallTests(del, fnFullName(h.isTagged), func(x *ssa.Call) bool { return c09SameKey(x.Call.Args[len(x.Call.Args)-1], e) })
+				for _, e := range elems {
+					if !c09ElemOf(e, dAliases) {
+						continue
+					}
+					nEnq++
+					ok := c09GuardedUp(c.P, ap.(ssa.Instruction), nil, autoGCEdges, 2)
+					c.Check(R3, dn+"|dangling-only-under-AutoGC", ap.Pos(), ok, ifelse(ok, "a dangling node is enqueued only on the s.AutoGC edge", "dangling nodes are deleted although AutoGC is off"))
+					var notTagged []Edge
+					if h.isTagged != nil {
+						_, notTagged, _ = CallTests(host, fnFullName(h.isTagged), func(x *ssa.Call) bool { return c09SameKey(x.Call.Args[len(x.Call.Args)-1], e) })
+					}
+					ok = c09Guarded(ap.(ssa.Instruction), notTagged)
+					c.Check(R3, dn+"|dangling-only-if-untagged", ap.Pos(), ok, ifelse(ok, "a dangling node d is enqueued only on the !isTagged(d) edge", "a dangling node is enqueued for deletion without the !isTagged(d) test of that same node: a tagged manifest can be deleted"))
 				}
-				ok = c09Guarded(ap.(ssa.Instruction), notTagged)
-				c.Check(R3, dn+"|dangling-only-if-untagged", ap.Pos(), ok, ifelse(ok, "a dangling node d is enqueued only on the !isTagged(d) edge", "a dangling node is enqueued for deletion without the !isTagged(d) test of that same node: a tagged manifest can be deleted"))
 			}
 		}
+	}
+	if nRef == 0 {
+		c.LostAnchor(R3, dn+": call of registry.Referrers")
 	}
 	if nEnq == 0 {
 		c.LostAnchor(R3, dn+": enqueue of the dangling nodes returned by the delete helper")
@@ -395,111 +425,125 @@ func c09R3(c *Ctx) {
 
 // (c) delete helper: Untag only of references whose descriptor equals the target.
 func c09R3Delete(c *Ctx, R3 string, h *c09Helpers) {
-	f := h.deleteOne
-	fn := FnName(f)
-	recv := ssa.Value(f.Params[0])
-	resolverLoads := c09FieldLoads(f, recv, "tagResolver")
+	d := h.deleteOne
+	fn := FnName(d)
 	// the target: the descriptor handed to graph.Remove and Storage.Delete
 	var target ssa.Value
-	for _, rc := range CallsTo(f, c09nRemove) {
+	for _, rc := range CallsTo(d, c09nRemove) {
 		target = rc.Common().Args[1]
 	}
 	okT := target != nil
-	for _, sc := range CallsTo(f, c09nStDelete) {
+	for _, sc := range CallsTo(d, c09nStDelete) {
 		if !c09SameKey(sc.Common().Args[2], target) {
 			okT = false
 		}
 	}
-	c.Check(R3, fn+"|removes-and-deletes-the-same-node", f.Pos(), okT, "graph.Remove and Storage.Delete receive the same descriptor")
+	c.Check(R3, fn+"|removes-and-deletes-the-same-node", d.Pos(), okT, "graph.Remove and Storage.Delete receive the same descriptor")
+	// sameAsTarget: v (in function f, at or below the delete helper) denotes the node being removed
+	sameAsTarget := func(v ssa.Value) bool {
+		os, ok := c09Origins(c.P, v, 2, d)
+		if !ok || len(os) == 0 {
+			return false
+		}
+		for _, o := range os {
+			if !c09SameKey(o, target) {
+				return false
+			}
+		}
+		return true
+	}
 	n := 0
-	for _, uc := range CallsTo(f, c09nUntag) {
-		args := uc.Common().Args
-		if !resolverLoads[args[0]] {
-			continue
-		}
-		n++
-		// the reference is the key of a range over the resolver map — directly, or
-		// collected first into a slice that is then ranged over
-		type keySite struct {
-			at  ssa.Instruction
-			key ssa.Value
-		}
-		sites := []keySite{{uc.(ssa.Instruction), args[1]}}
-		if rs := Roots(args[1]); len(rs) == 1 {
-			if ld, ok := rs[0].(*ssa.UnOp); ok && ld.Op == token.MUL {
-				if ia, ok := ld.X.(*ssa.IndexAddr); ok {
-					sites = nil
-					acc := map[ssa.Value]bool{}
-					var grow func(v ssa.Value)
-					grow = func(v ssa.Value) {
-						if v == nil || acc[v] {
-							return
-						}
-						acc[v] = true
-						switch u := v.(type) {
-						case *ssa.Phi:
-							for _, e := range u.Edges {
-								grow(e)
-							}
-						case *ssa.Call:
-							if CalleeName(u) == "builtin:append" {
-								grow(u.Call.Args[0])
-							}
-						}
-					}
-					grow(ia.X)
-					for _, ap := range CallsTo(f, "builtin:append") {
-						if acc[ap.Value()] {
-							elems, whole := c09AppendedElems(ap)
-							if whole != nil {
-								sites = append(sites, keySite{ap.(ssa.Instruction), nil})
-							}
-							for _, e := range elems {
-								sites = append(sites, keySite{ap.(ssa.Instruction), e})
-							}
-						}
-					}
-				}
-			}
-		}
-		okAll, undecided := len(sites) > 0, false
-		for _, ks := range sites {
-			var nx ssa.Value
-			if ks.key != nil {
-				for _, r := range Roots(ks.key) {
-					if e, ok := r.(*ssa.Extract); ok && e.Index == 1 {
-						if _, isNext := e.Tuple.(*ssa.Next); isNext {
-							nx = e.Tuple
-						}
-					}
-				}
-			}
-			if nx == nil {
-				undecided = true
+	for _, f := range c09ReachableInPkg(d, 2) {
+		resolverLoads := c08StoreFieldLoads(f, h.store, "tagResolver")
+		for _, uc := range CallsTo(f, c09nUntag) {
+			args := uc.Common().Args
+			if !resolverLoads[args[0]] {
 				continue
 			}
-			eq, _, _ := CallTests(f, c09nEqual, func(x *ssa.Call) bool {
-				a, b := x.Call.Args[0], x.Call.Args[1]
-				isVal := func(v ssa.Value) bool {
-					for _, r := range Roots(v) {
-						if e, ok := r.(*ssa.Extract); !ok || e.Index != 2 || e.Tuple != nx {
-							return false
+			n++
+			// the reference is the key of a range over the resolver map — directly, or
+			// collected first into a slice that is then ranged over
+			type keySite struct {
+				at  ssa.Instruction
+				key ssa.Value
+			}
+			sites := []keySite{{uc.(ssa.Instruction), args[1]}}
+			if rs := Roots(args[1]); len(rs) == 1 {
+				if ld, ok := rs[0].(*ssa.UnOp); ok && ld.Op == token.MUL {
+					if ia, ok := ld.X.(*ssa.IndexAddr); ok {
+						sites = nil
+						acc := map[ssa.Value]bool{}
+						var grow func(v ssa.Value)
+						grow = func(v ssa.Value) {
+							if v == nil || acc[v] {
+								return
+							}
+							acc[v] = true
+							switch u := v.(type) {
+							case *ssa.Phi:
+								for _, e := range u.Edges {
+									grow(e)
+								}
+							case *ssa.Call:
+								if CalleeName(u) == "builtin:append" {
+									grow(u.Call.Args[0])
+								}
+							}
+						}
+						grow(ia.X)
+						for _, ap := range CallsTo(f, "builtin:append") {
+							if acc[ap.Value()] {
+								elems, whole := c09AppendedElems(ap)
+								if whole != nil {
+									sites = append(sites, keySite{ap.(ssa.Instruction), nil})
+								}
+								for _, e := range elems {
+									sites = append(sites, keySite{ap.(ssa.Instruction), e})
+								}
+							}
 						}
 					}
-					return true
 				}
-				return (isVal(a) && c09SameKey(b, target)) || (isVal(b) && c09SameKey(a, target))
-			})
-			if !c09Guarded(ks.at, eq) {
-				okAll = false
 			}
+			okAll, undecided := len(sites) > 0, false
+			for _, ks := range sites {
+				var nx ssa.Value
+				if ks.key != nil {
+					for _, r := range Roots(ks.key) {
+						if e, ok := r.(*ssa.Extract); ok && e.Index == 1 {
+							if _, isNext := e.Tuple.(*ssa.Next); isNext {
+								nx = e.Tuple
+							}
+						}
+					}
+				}
+				if nx == nil {
+					undecided = true
+					continue
+				}
+				eq, _, _ := CallTests(f, c09nEqual, func(x *ssa.Call) bool {
+					a, b := x.Call.Args[0], x.Call.Args[1]
+					isVal := func(v ssa.Value) bool {
+						for _, r := range Roots(v) {
+							if e, ok := r.(*ssa.Extract); !ok || e.Index != 2 || e.Tuple != nx {
+								return false
+							}
+						}
+						return true
+					}
+					return (isVal(a) && sameAsTarget(b)) || (isVal(b) && sameAsTarget(a))
+				})
+				if !c09Guarded(ks.at, eq) {
+					okAll = false
+				}
+			}
+			if undecided {
+				c.Undecided(R3, fn+"|untag-only-equal-descriptors", uc.Pos(), "the reference passed to Untag is not the key of a range over the resolver map (directly or via a collected slice): shape not recognised")
+				continue
+			}
+			ok := okAll
+			c.Check(R3, fn+"|untag-only-equal-descriptors", uc.Pos(), ok, ifelse(ok, "Untag(ref) is reached only on the content.Equal(resolver[ref], target) edge", "a reference is untagged without content.Equal(resolver[ref], target): another node's tag can be removed"))
 		}
-		if undecided {
-			c.Undecided(R3, fn+"|untag-only-equal-descriptors", uc.Pos(), "the reference passed to Untag is not the key of a range over the resolver map (directly or via a collected slice): shape not recognised")
-			continue
-		}
-		ok := okAll
-		c.Check(R3, fn+"|untag-only-equal-descriptors", uc.Pos(), ok, ifelse(ok, "Untag(ref) is reached only on the content.Equal(resolver[ref], target) edge", "a reference is untagged without content.Equal(resolver[ref], target): another node's tag can be removed"))
 	}
 	if n == 0 {
 		c.LostAnchor(R3, fn+": Untag of the deleted node's references")
@@ -573,6 +617,49 @@ func c09R3Remove(c *Ctx, R3 string) {
 					}
 				}
 			})
+			// … or the set became empty according to a helper of the package that
+			// returns true only when len(predecessors[key]) == 0
+			te, _ := c09BoolCallEdges(f, func(call *ssa.Call, g *ssa.Function) (int, bool) {
+				if g.Signature.Results().Len() == 0 || fnPkgPath(g) != fnPkgPath(f) {
+					return 0, false
+				}
+				for i, a := range call.Call.Args {
+					if i >= len(g.Params) || !c09SameKey(a, key) {
+						continue
+					}
+					var guards []Edge
+					sets := map[ssa.Value]bool{}
+					AllInstrs(g, func(in ssa.Instruction) {
+						lk, ok := in.(*ssa.Lookup)
+						if !ok || !c09IsLoadOfField(lk.X, mem, "predecessors") {
+							return
+						}
+						if pf, pi := c09ParamOf(lk.Index); pf != g || pi != i {
+							return
+						}
+						var sv ssa.Value = lk
+						if lk.CommaOk {
+							sv = nil
+							for _, r := range *lk.Referrers() {
+								if ex, ok := r.(*ssa.Extract); ok && ex.Index == 0 {
+									sv = ex
+								}
+							}
+						}
+						if sv != nil {
+							sets[sv] = true
+							guards = append(guards, c08LenZeroEdges(g, sv)...)
+						}
+					})
+					for idx := 0; idx < g.Signature.Results().Len(); idx++ {
+						if types.Identical(g.Signature.Results().At(idx).Type(), types.Typ[types.Bool]) && (c09TrueImplies(g, idx, guards, nil) || c09IsLenZeroResult(g, idx, sets)) {
+							return idx, true
+						}
+					}
+				}
+				return 0, false
+			})
+			empty = append(empty, te...)
 			ok := c09Guarded(ap.(ssa.Instruction), empty)
 			c.Check(R3, fn+"|dangling-only-without-predecessors", ap.Pos(), ok, ifelse(ok, "a successor is reported dangling only on the len(predecessors[successor]) == 0 edge", "a successor is reported as dangling although other nodes may still point to it (it would be deleted under a surviving parent)"))
 			ok = c09Guarded(ap.(ssa.Instruction), present)
@@ -582,6 +669,29 @@ func c09R3Remove(c *Ctx, R3 string) {
 	if n == 0 {
 		c.LostAnchor(R3, fn+": append of a dangling node to the result")
 	}
+}
+
+// c09IsLenZeroResult: result idx of g is the predicate `len(set) == 0` itself on every return.
+func c09IsLenZeroResult(g *ssa.Function, idx int, sets map[ssa.Value]bool) bool {
+	atoms := RetAtoms(g, idx)
+	if len(atoms) == 0 {
+		return false
+	}
+	for _, a := range atoms {
+		bo, ok := a.Val.(*ssa.BinOp)
+		if !ok {
+			return false
+		}
+		ln, ok := bo.X.(*ssa.Call)
+		if !ok || CalleeName(ln) != "builtin:len" || !sets[ln.Call.Args[0]] {
+			return false
+		}
+		k, ok := constInt(bo.Y)
+		if !ok || !((bo.Op == token.EQL && k == 0) || (bo.Op == token.LSS && k == 1) || (bo.Op == token.LEQ && k == 0)) {
+			return false
+		}
+	}
+	return true
 }
 
 // (e) isTagged: a lone digest self-reference does not count as a tag.
@@ -620,29 +730,149 @@ func c09R3IsTagged(c *Ctx, R3 string, h *c09Helpers) {
 		return
 	}
 	ok, why := true, ""
+	inEdges := func(e Edge, es []Edge) bool {
+		for _, x := range es {
+			if x == e {
+				return true
+			}
+		}
+		return false
+	}
 	for _, a := range RetAtoms(f, 0) {
-		thr, known := c09LenThreshold(a.Val, set)
+		alts, known := c09LenCompare(a.Val, set)
 		if !known {
-			c.Undecided(R3, key, a.Ret.Pos(), "result "+describe(a.Val)+" is not a comparison of len(tagSet) with a constant")
+			c.Undecided(R3, key, a.Ret.Pos(), "result "+describe(a.Val)+" is not a comparison of len(tagSet) (plus a constant) with a constant")
 			return
 		}
-		onSelf := AtomMustPass(a, newCut().Edges(selfT...))
-		onOther := AtomMustPass(a, newCut().Edges(selfF...))
-		switch {
-		case onSelf && !onOther:
-			if thr != 2 {
-				ok, why = false, fmt.Sprintf("when the set contains the digest itself the result is len(tagSet) >= %d, expected >= 2", thr)
+		for _, alt := range alts {
+			var onSelf, onOther bool
+			if alt.via != nil {
+				term := alt.via.From.Instrs[len(alt.via.From.Instrs)-1]
+				onSelf = inEdges(*alt.via, selfT) || MustPass(term, newCut().Edges(selfT...))
+				onOther = inEdges(*alt.via, selfF) || MustPass(term, newCut().Edges(selfF...))
+			} else {
+				onSelf = AtomMustPass(a, newCut().Edges(selfT...))
+				onOther = AtomMustPass(a, newCut().Edges(selfF...))
 			}
-		case onOther && !onSelf:
-			if thr != 1 {
-				ok, why = false, fmt.Sprintf("when the set does not contain the digest the result is len(tagSet) >= %d, expected >= 1", thr)
+			switch {
+			case onSelf && !onOther:
+				if alt.thr != 2 {
+					ok, why = false, fmt.Sprintf("when the set contains the digest itself the result is len(tagSet) >= %d, expected >= 2", alt.thr)
+				}
+			case onOther && !onSelf:
+				if alt.thr != 1 {
+					ok, why = false, fmt.Sprintf("when the set does not contain the digest the result is len(tagSet) >= %d, expected >= 1", alt.thr)
+				}
+			default:
+				c.Undecided(R3, key, a.Ret.Pos(), "a result is not decided by the contains-own-digest test")
+				return
 			}
-		default:
-			c.Undecided(R3, key, a.Ret.Pos(), "a result is not decided by the contains-own-digest test")
-			return
 		}
 	}
 	c.Check(R3, key, f.Pos(), ok, ifelse(ok, "tagged iff the tag set holds a reference other than the descriptor's own digest", why))
+}
+
+// c09LenAlt: the compared value is equivalent to len(set) >= thr when control
+// arrived over phi edge via (nil: unconditionally).
+type c09LenAlt struct {
+	thr int64
+	via *Edge
+}
+
+// c09LenCompare: v is `E OP k` with E = len(set) + constant, possibly a phi of
+// such expressions (`n := len(s); if c { n-- }; return n > 0`).
+func c09LenCompare(v ssa.Value, set map[ssa.Value]bool) ([]c09LenAlt, bool) {
+	bo, ok := v.(*ssa.BinOp)
+	if !ok {
+		return nil, false
+	}
+	type lin struct {
+		off int64
+		via *Edge
+	}
+	var linear func(x ssa.Value, depth int) ([]lin, bool)
+	linear = func(x ssa.Value, depth int) ([]lin, bool) {
+		if depth > 4 {
+			return nil, false
+		}
+		switch u := x.(type) {
+		case *ssa.Call:
+			if CalleeName(u) == "builtin:len" && set[u.Call.Args[0]] {
+				return []lin{{0, nil}}, true
+			}
+		case *ssa.BinOp:
+			if k, isC := constInt(u.Y); isC && (u.Op == token.ADD || u.Op == token.SUB) {
+				ls, ok := linear(u.X, depth+1)
+				if !ok {
+					return nil, false
+				}
+				for i := range ls {
+					if u.Op == token.ADD {
+						ls[i].off += k
+					} else {
+						ls[i].off -= k
+					}
+				}
+				return ls, true
+			}
+		case *ssa.Phi:
+			var out []lin
+			for i, e := range u.Edges {
+				ls, ok := linear(e, depth+1)
+				if !ok {
+					return nil, false
+				}
+				edge := Edge{u.Block().Preds[i], u.Block()}
+				for _, l := range ls {
+					if l.via == nil {
+						ed := edge
+						l.via = &ed
+					}
+					out = append(out, l)
+				}
+			}
+			return out, true
+		}
+		return nil, false
+	}
+	k, isC := constInt(bo.Y)
+	ls, okL := linear(bo.X, 0)
+	op := bo.Op
+	if !isC || !okL {
+		// constant on the left: k OP E
+		k, isC = constInt(bo.X)
+		ls, okL = linear(bo.Y, 0)
+		if !isC || !okL {
+			return nil, false
+		}
+		switch op {
+		case token.LSS:
+			op = token.GTR
+		case token.LEQ:
+			op = token.GEQ
+		case token.NEQ:
+		default:
+			return nil, false
+		}
+	}
+	var out []c09LenAlt
+	for _, l := range ls {
+		// len + off OP k
+		switch op {
+		case token.GTR:
+			out = append(out, c09LenAlt{k - l.off + 1, l.via})
+		case token.GEQ:
+			out = append(out, c09LenAlt{k - l.off, l.via})
+		case token.NEQ:
+			if k-l.off != 0 {
+				return nil, false
+			}
+			out = append(out, c09LenAlt{1, l.via})
+		default:
+			return nil, false
+		}
+	}
+	return out, true
 }
 
 // c09LenThreshold: v is `len(set) OP k`; returns t such that v == (len(set) >= t).
